@@ -4,6 +4,15 @@ import json, os
 V = os.path.dirname(os.path.dirname(os.path.abspath(__file__)))
 
 CHECKS = {
+ "C12": dict(
+    technique="runtime reference stack machine + fresh-twin probe battery over exhaustively enumerated operation sequences with injected failing activations; context fingerprints",
+    text="All operation sequences up to length 3 (quick, length 4 sampled) / 5 (thorough) over 13 operations (enable with/without parameters, enable of two invalid contexts, a two-name "
+         "activation that fails part-way, disable(1), disable(all), with-enter, with-exit, exception inside a with-block, define) are executed on a real registry while a list models the stack; "
+         "afterwards a 27-answer probe battery (conversions only valid inside each context, redefined and dependent units, root/base units, compatible sets, stack depth) must equal that of a "
+         "fresh twin with exactly the model stack enabled, and after leaving everything the pre-entry answers; Context objects are fingerprinted, also when shared by two registries.",
+    category="fault_enumeration",
+    note="small dedicated registry (3 dimensions, 5 contexts); the twin is trusted for values (C11); one recorded finding (define inside a redefining context)",
+    ref="4/C12"),
  "C11": dict(
     technique="runtime oracle: independent all-shortest-chains evaluator over the declared rules vs real conversions under context stacks; replay under several hash seeds",
     text="Bundled contexts: every ordered pair of rule endpoints with random units of those dimensions, parameters and every activation form is converted by the real registry "
